@@ -188,6 +188,9 @@ func tryPartial(env Env, nodes []ast.IsNode,
 ) (ast.IsNode, error) {
 	var values []types.Value
 	ok := true
+	// nodes is updated in place with the partially evaluated operands; the original
+	// operands are what is kept when the result turns out to be an unknown
+	orig := slices.Clone(nodes)
 	for i, n := range nodes {
 		n, err := partial(env, n)
 		if errors.Is(err, errVariable) {
@@ -224,7 +227,9 @@ func tryPartial(env Env, nodes []ast.IsNode,
 			return nil, err
 		}
 		if IsVariable(v) {
-			return mkNode(nodes), errVariable
+			// the operands were evaluated to values that hold the unknown's placeholder
+			// (e.g. the context record in `context.flag`): keep the expression as written
+			return mkNode(orig), errVariable
 		} else if IsIgnore(v) {
 			return nil, errIgnore
 		}
